@@ -255,6 +255,7 @@ class SimpleResultMetaData(ResultMetaData):
         "_create_unique_filters",
         "_key_to_index",
         "_ambiguous_keys",
+        "_index_recs",
     )
 
     _keys: Sequence[str]
@@ -294,6 +295,11 @@ class SimpleResultMetaData(ResultMetaData):
             ]
 
         self._keymap = {key: rec for keys, rec in recs_names for key in keys}
+
+        # integer positions resolve by position; key names are not
+        # necessarily unique (e.g. several anonymous aliased() entities
+        # all have the name None)
+        self._index_recs = [rec for _, rec in recs_names]
 
         if _ambiguous_keys:
             for name in _ambiguous_keys.intersection(self._keymap):
@@ -353,7 +359,7 @@ class SimpleResultMetaData(ResultMetaData):
 
     def _index_for_key(self, key: Any, raiseerr: bool = True) -> int:
         if isinstance(key, int):
-            key = self._keys[key]
+            return self._index_recs[key][0]  # type: ignore[no-any-return]
         try:
             rec = self._keymap[key]
         except KeyError as ke:
@@ -381,7 +387,8 @@ class SimpleResultMetaData(ResultMetaData):
     ) -> Iterator[_KeyMapRecType]:
         for key in keys:
             if isinstance(key, int):
-                key = self._keys[key]
+                yield self._index_recs[key]
+                continue
 
             try:
                 rec = self._keymap[key]
@@ -396,7 +403,11 @@ class SimpleResultMetaData(ResultMetaData):
     def _reduce(self, keys: Sequence[Any]) -> ResultMetaData:
         try:
             metadata_for_keys = [
-                self._keymap[self._keys[key] if isinstance(key, int) else key]
+                (
+                    self._index_recs[key]
+                    if isinstance(key, int)
+                    else self._keymap[key]
+                )
                 for key in keys
             ]
         except KeyError as ke:
